@@ -1,0 +1,136 @@
+// Copyright 2020-2025 Buf Technologies, Inc.
+//
+// Licensed under the Apache License, Version 2.0 (the "License");
+// you may not use this file except in compliance with the License.
+// You may obtain a copy of the License at
+//
+//      http://www.apache.org/licenses/LICENSE-2.0
+//
+// Unless required by applicable law or agreed to in writing, software
+// distributed under the License is distributed on an "AS IS" BASIS,
+// WITHOUT WARRANTIES OR CONDITIONS OF ANY KIND, either express or implied.
+// See the License for the specific language governing permissions and
+// limitations under the License.
+
+//go:build verif
+
+package internal
+
+// Contracts for the gocv verifier (see /verif/DESIGN.md). Comment-only.
+//
+//@ trusted pure interface bufimage.ImageFile
+//@ trusted pure interface bufimage.Image
+//
+// getPathKey: 4 bytes per element, little endian (byte arithmetic is outside the fragment): a deterministic function of the path.
+//@ trusted pure func getPathKey(path) (r)
+//
+// The trie of FieldOptions paths (pointers into slices of nodes: outside the fragment) is abstracted: only the set of
+// location indices that were inserted is modelled; indicesWithoutDescendant returns some of THOSE indices.
+//@ trusted func (fieldOptionsTrie) insert(path, locationIndex)
+//@   modifies heap internal.fieldOptionsTrieNode.*, ghost.n_trieInserted
+//@   ensures ghost.n_trieInserted == add(old(ghost.n_trieInserted), locationIndex)
+//@ trusted func (fieldOptionsTrie) registerDescendant(descendant)
+//@   modifies heap internal.fieldOptionsTrieNode.*
+//@ trusted func (fieldOptionsTrie) indicesWithoutDescendant() (r)
+//@   ensures forall j int :: 0 <= j && j < len(r) ==> r[j] in ghost.n_trieInserted
+//
+//@ pure func isPathForFileOption(path) (r)
+//@   property C18
+//@   requires len(fileOptionPath) == 1 && fileOptionPath[0] == 8
+//@   ensures two-elements-under-8: r <==> (len(path) == 2 && path[0] == 8)
+//@ table n_fileOptionPath {C18} of fileOptionPath
+//@   ensures file-options-field-number: len(fileOptionPath) == 1 && fileOptionPath[0] == 8
+//
+// getPathType, the source-path DFA (verified against its body): the result is the class of the path in the
+// language n_pathType (/verif/specs/N_extra.spec: field path = 4 i (3 j)* (2|6) k | 7 k; root = field path + 8;
+// option = anything BELOW the root, at any depth). The six state functions are executed as written (inline);
+// the call through the state variable forks over them (dispatch).
+//@ inline func start(input) (r0, r1)
+//@ inline func messages(input) (r0, r1)
+//@ inline func message(input) (r0, r1)
+//@ inline func fields(input) (r0, r1)
+//@ inline func field(input) (r0, r1)
+//@ inline func fieldOptions(input) (r0, r1)
+//@ pure func getPathType(path) (r)
+//@   property C18
+//@   dispatch currentState over start, messages, message, fields, field, fieldOptions
+//@   reveal n_scan, n_pathType, n_step
+//@   ensures path-class: r == n_pathType(path)
+//@   ensures one-of-three: r == pathTypeNotFieldOption || r == pathTypeFieldOptionsRoot || r == pathTypeFieldOption
+//@   loop 0 invariant currentState == nil || currentState == start || currentState == messages || currentState == message || currentState == fields || currentState == field || currentState == fieldOptions
+//@   loop 0 invariant (currentState == fieldOptions ==> pathType == pathTypeFieldOptionsRoot) && (currentState != nil && currentState != fieldOptions ==> pathType == pathTypeNotFieldOption) && (currentState == nil ==> pathType == pathTypeFieldOption || pathType == pathTypeNotFieldOption)
+//@   loop 0 invariant n_scan(path, 0, 0) == n_scan(path, $i, ite(currentState == start, 0, ite(currentState == messages, 1, ite(currentState == message, 2, ite(currentState == fields, 3, ite(currentState == field, 4, ite(currentState == fieldOptions, 5, ite(pathType == pathTypeFieldOption, 6, 7))))))))
+//
+// removeLocationsFromSourceCodeInfo (verified; the trie is abstracted as above). With L the locations before and N after:
+// every location left is an unmarked one that is not the [8] parent directly preceding a marked file option; a
+// location is dropped ONLY if it is marked, is such a parent, or is a FieldOptions root (the trie decides which roots
+// have no option left); the order is kept; a marked path that is neither a file option nor a field option, or that
+// has no preceding location, is an error ("each path must be for either a file option or a field option").
+// (k in old(ghost.n_trieInserted) excludes stale content of the abstract trie model, see N_extra.spec.)
+//@ func removeLocationsFromSourceCodeInfo(sourceCodeInfo, pathsToRemove) (err)
+//@   property C18
+//@   reveal n_subset
+//@   modifies heap descriptorpb.SourceCodeInfo.Location, heap fieldOptionsTrieNode.*, ghost.n_trieInserted
+//@   requires len(fileOptionPath) == 1 && fileOptionPath[0] == 8
+//@   ensures only-unmarked-left: err == nil ==> (forall j int :: 0 <= j && j < len(sourceCodeInfo.Location) ==> (exists k int :: 0 <= k && k < len(old(sourceCodeInfo.Location)) && old(sourceCodeInfo.Location)[k] == sourceCodeInfo.Location[j] && !(getPathKey(old(sourceCodeInfo.Location)[k].Path) in pathsToRemove) && !(k + 1 < len(old(sourceCodeInfo.Location)) && (getPathKey(old(sourceCodeInfo.Location)[k + 1].Path) in pathsToRemove) && isPathForFileOption(old(sourceCodeInfo.Location)[k + 1].Path))))
+//@   ensures nothing-else-removed: err == nil ==> (forall k int :: 0 <= k && k < len(old(sourceCodeInfo.Location)) && !(getPathKey(old(sourceCodeInfo.Location)[k].Path) in pathsToRemove) && !(k + 1 < len(old(sourceCodeInfo.Location)) && (getPathKey(old(sourceCodeInfo.Location)[k + 1].Path) in pathsToRemove) && isPathForFileOption(old(sourceCodeInfo.Location)[k + 1].Path)) && getPathType(old(sourceCodeInfo.Location)[k].Path) != pathTypeFieldOptionsRoot && !(k in old(ghost.n_trieInserted)) ==> (exists j int :: 0 <= j && j < len(sourceCodeInfo.Location) && sourceCodeInfo.Location[j] == old(sourceCodeInfo.Location)[k]))
+//@   ensures order-kept: err == nil ==> (forall a int, b int :: 0 <= a && a < b && b < len(sourceCodeInfo.Location) ==> (exists i int, j int :: 0 <= i && i < j && j < len(old(sourceCodeInfo.Location)) && old(sourceCodeInfo.Location)[i] == sourceCodeInfo.Location[a] && old(sourceCodeInfo.Location)[j] == sourceCodeInfo.Location[b]))
+//@   ensures never-longer: err == nil ==> len(sourceCodeInfo.Location) <= len(old(sourceCodeInfo.Location))
+//@   ensures only-removes: n_subset(sourceCodeInfo.Location, old(sourceCodeInfo.Location))
+//@   ensures error-untouched: err != nil ==> sourceCodeInfo.Location == old(sourceCodeInfo.Location)
+//@   ensures field-options-at-any-depth-accepted: (forall k int :: 0 <= k && k < len(old(sourceCodeInfo.Location)) && (getPathKey(old(sourceCodeInfo.Location)[k].Path) in pathsToRemove) ==> k > 0 && !isPathForFileOption(old(sourceCodeInfo.Location)[k].Path) && getPathType(old(sourceCodeInfo.Location)[k].Path) == pathTypeFieldOption) ==> err == nil
+//@   ensures orphan-marked-rejected: len(old(sourceCodeInfo.Location)) > 0 && (getPathKey(old(sourceCodeInfo.Location)[0].Path) in pathsToRemove) ==> err != nil
+//@   ensures other-marked-rejected: (exists k int :: 0 <= k && k < len(old(sourceCodeInfo.Location)) && (getPathKey(old(sourceCodeInfo.Location)[k].Path) in pathsToRemove) && !isPathForFileOption(old(sourceCodeInfo.Location)[k].Path) && getPathType(old(sourceCodeInfo.Location)[k].Path) != pathTypeFieldOption) ==> err != nil
+//@   loop 0 invariant indices != nil && sourceCodeInfo.Location == old(sourceCodeInfo.Location)
+//@   loop 0 invariant forall k int :: k in indices ==> 0 <= k && (((getPathKey(sourceCodeInfo.Location[k].Path) in pathsToRemove) && k < $i) || (k + 1 < $i && (getPathKey(sourceCodeInfo.Location[k + 1].Path) in pathsToRemove) && isPathForFileOption(sourceCodeInfo.Location[k + 1].Path)))
+//@   loop 0 invariant forall k int :: 0 <= k && k < $i && (getPathKey(sourceCodeInfo.Location[k].Path) in pathsToRemove) ==> k in indices && k > 0 && (isPathForFileOption(sourceCodeInfo.Location[k].Path) || getPathType(sourceCodeInfo.Location[k].Path) == pathTypeFieldOption)
+//@   loop 0 invariant forall k int :: 0 <= k && k < $i && (getPathKey(sourceCodeInfo.Location[k].Path) in pathsToRemove) && isPathForFileOption(sourceCodeInfo.Location[k].Path) ==> (k - 1) in indices
+//@   loop 0 invariant forall k int :: k in ghost.n_trieInserted ==> k in old(ghost.n_trieInserted) || (0 <= k && k < $i && getPathType(sourceCodeInfo.Location[k].Path) == pathTypeFieldOptionsRoot)
+//@   loop 1 invariant indices != nil && sourceCodeInfo.Location == old(sourceCodeInfo.Location)
+//@   loop 1 invariant forall k int :: k in indices ==> ((0 <= k && (((getPathKey(sourceCodeInfo.Location[k].Path) in pathsToRemove) && k < len(sourceCodeInfo.Location)) || (k + 1 < len(sourceCodeInfo.Location) && (getPathKey(sourceCodeInfo.Location[k + 1].Path) in pathsToRemove) && isPathForFileOption(sourceCodeInfo.Location[k + 1].Path)))) || k in ghost.n_trieInserted)
+//@   loop 1 invariant forall k int :: 0 <= k && k < len(sourceCodeInfo.Location) && (getPathKey(sourceCodeInfo.Location[k].Path) in pathsToRemove) ==> k in indices
+//@   loop 1 invariant forall k int :: 0 <= k && k < len(sourceCodeInfo.Location) && (getPathKey(sourceCodeInfo.Location[k].Path) in pathsToRemove) && isPathForFileOption(sourceCodeInfo.Location[k].Path) ==> (k - 1) in indices
+//@   loop 2 invariant sourceCodeInfo.Location == old(sourceCodeInfo.Location) && len(locations) <= $i && len(locations) >= 0
+//@   loop 2 invariant forall j int :: 0 <= j && j < len(locations) ==> (exists k int :: 0 <= k && k < $i && sourceCodeInfo.Location[k] == locations[j] && !(k in indices))
+//@   loop 2 invariant forall k int :: 0 <= k && k < $i && !(k in indices) ==> (exists j int :: 0 <= j && j < len(locations) && locations[j] == sourceCodeInfo.Location[k])
+//@   loop 2 invariant forall a int, b int :: 0 <= a && a < b && b < len(locations) ==> (exists i int, j int :: 0 <= i && i < j && j < $i && sourceCodeInfo.Location[i] == locations[a] && sourceCodeInfo.Location[j] == locations[b])
+//@   ensures frame: forall p *descriptorpb.SourceCodeInfo :: p != sourceCodeInfo ==> p.Location == old(p.Location)
+//@   canary ensures err != nil
+//
+// The MarkSweeper interface as seen by the modifiers: ghost counters / the last marked path (trusted at the interface;
+// the implementation below is verified against its own, functional contracts).
+//@ trusted func (MarkSweeper) Mark(imageFile, path)
+//@   modifies ghost.markCount, ghost.n_markedPath
+//@   ensures ghost.markCount == old(ghost.markCount) + 1
+//@   ensures ghost.n_markedPath == path
+//@ trusted func (MarkSweeper) Sweep() (err)
+//@   modifies ghost.sweepCount, heap
+//@   ensures ghost.sweepCount == old(ghost.sweepCount) + 1
+//@ func NewMarkSweeper(image) (r)
+//@   property C18
+//@   ensures r != nil
+//@ func newMarkSweeper(image) (r)
+//@   property C18
+//@   ensures r != nil && r.image == image && r.sourceCodeInfoPaths != nil && (forall f string :: !(f in r.sourceCodeInfoPaths))
+//
+// Mark records exactly (file path, key of the source path) and nothing else.
+//@ func (s *markSweeper) Mark(imageFile, path)
+//@   property C18
+//@   modifies heap markSweeper.sourceCodeInfoPaths
+//@   requires s.sourceCodeInfoPaths != nil && (forall f string :: f in s.sourceCodeInfoPaths ==> s.sourceCodeInfoPaths[f] != nil)
+//@   ensures marked: imageFile.Path() in s.sourceCodeInfoPaths && getPathKey(path) in s.sourceCodeInfoPaths[imageFile.Path()]
+//@   ensures nothing-else-marked: forall f string, k string :: f in s.sourceCodeInfoPaths && k in s.sourceCodeInfoPaths[f] ==> ((f in old(s.sourceCodeInfoPaths) && k in old(s.sourceCodeInfoPaths)[f]) || (f == imageFile.Path() && k == getPathKey(path)))
+//@   ensures marks-kept: forall f string, k string :: f in old(s.sourceCodeInfoPaths) && k in old(s.sourceCodeInfoPaths)[f] ==> f in s.sourceCodeInfoPaths && k in s.sourceCodeInfoPaths[f]
+//@   ensures inner-maps-non-nil: s.sourceCodeInfoPaths != nil && (forall f string :: f in s.sourceCodeInfoPaths ==> s.sourceCodeInfoPaths[f] != nil)
+//
+// Sweep only ever removes locations (n_subset: every location left of a file's source info was there before), and the source info of
+// a file no path of which was marked is untouched (unless it shares its SourceCodeInfo object with a marked file).
+//@ func (s *markSweeper) Sweep() (err)
+//@   property C18
+//@   modifies heap descriptorpb.SourceCodeInfo.Location, heap fieldOptionsTrieNode.*, ghost.n_trieInserted
+//@   requires len(fileOptionPath) == 1 && fileOptionPath[0] == 8
+//@   use n_subset-refl, n_subset-trans
+//@   ensures only-removes: forall i int :: 0 <= i && i < len(s.image.Files()) && s.image.Files()[i].FileDescriptorProto().SourceCodeInfo != nil ==> n_subset(s.image.Files()[i].FileDescriptorProto().SourceCodeInfo.Location, old(s.image.Files()[i].FileDescriptorProto().SourceCodeInfo.Location))
+//@   ensures unmarked-files-untouched: forall i int :: 0 <= i && i < len(s.image.Files()) && s.image.Files()[i].FileDescriptorProto().SourceCodeInfo != nil && (forall i2 int :: 0 <= i2 && i2 < len(s.image.Files()) && s.image.Files()[i2].FileDescriptorProto().SourceCodeInfo == s.image.Files()[i].FileDescriptorProto().SourceCodeInfo ==> !(s.image.Files()[i2].Path() in s.sourceCodeInfoPaths)) ==> s.image.Files()[i].FileDescriptorProto().SourceCodeInfo.Location == old(s.image.Files()[i].FileDescriptorProto().SourceCodeInfo.Location)
+//@   loop 0 invariant forall i int :: 0 <= i && i < len(s.image.Files()) && s.image.Files()[i].FileDescriptorProto().SourceCodeInfo != nil ==> n_subset(s.image.Files()[i].FileDescriptorProto().SourceCodeInfo.Location, old(s.image.Files()[i].FileDescriptorProto().SourceCodeInfo.Location))
+//@   loop 0 invariant forall i int :: 0 <= i && i < len(s.image.Files()) && s.image.Files()[i].FileDescriptorProto().SourceCodeInfo != nil && (forall i2 int :: 0 <= i2 && i2 < len(s.image.Files()) && s.image.Files()[i2].FileDescriptorProto().SourceCodeInfo == s.image.Files()[i].FileDescriptorProto().SourceCodeInfo ==> !(s.image.Files()[i2].Path() in s.sourceCodeInfoPaths)) ==> s.image.Files()[i].FileDescriptorProto().SourceCodeInfo.Location == old(s.image.Files()[i].FileDescriptorProto().SourceCodeInfo.Location)
